@@ -76,8 +76,12 @@ def seg_fields(version, name):
     if not sref or len(sref) < 2 or not isinstance(sref[1], (tuple, list)):
         return []
     out = []
-    for c in sref[1]:
+    for i, c in enumerate(sref[1]):
         if not isinstance(c, (tuple, list)) or len(c) != 4:
+            return []
+        # a few 2.6 / 2.8 / 2.8.1 tables skip field numbers (EVN starts at EVN_2, DG1 jumps from 6 to
+        # 15 ...): the library then encodes by table order, not by number.  Out of the generators' regime.
+        if c[0] != '%s_%d' % (name, i + 1):
             return []
         out.append(c)
     return out
